@@ -870,6 +870,11 @@ class Machine:
         if isinstance(node.op, ast.USub):
             if isinstance(v, (int, float, fractions.Fraction)):
                 return -v
+            h = getattr(self.c, "unary_hook", None)
+            if h is not None and not is_num(v):
+                r = h(self, node.op, v)
+                if r is not NotImplemented:
+                    return r
             return -to_z3num(v)
         if isinstance(node.op, ast.UAdd):
             return v
@@ -986,6 +991,10 @@ class Machine:
         return zand(*res)
 
     def compare(self, op, a, b):
+        if self.c.compare_hook is not None and not (is_num(a) and is_num(b)):
+            r = self.c.compare_hook(self, op, a, b)
+            if r is not NotImplemented:
+                return r
         if isinstance(op, (ast.Is, ast.IsNot)):
             if a is None or b is None or isinstance(a, (bool, str)) or isinstance(b, (bool, str)):
                 r = (a is b) if not (is_z3(a) or is_z3(b)) else False
